@@ -532,7 +532,8 @@ func ensureHTMLSafeLoginDestination(loginDestination string) string {
 	if err != nil {
 		return profilePath
 	}
-	return parsedLoginDestination.String()
+	// The value is placed inside an HTML attribute by the callers
+	return htmltemplate.HTMLEscapeString(parsedLoginDestination.String())
 
 }
 
